@@ -6693,7 +6693,21 @@ CK_RV SoftHSM::C_WrapKey
 
 				OSAttribute keyAttr = key->getAttribute(it->first);
 				ByteString v1, v2;
-				if (!keyAttr.peekValue(v1) || !it->second.peekValue(v2) || (v1 != v2))
+				if (isKeyPrivate &&
+				    keyAttr.isByteStringAttribute() &&
+				    keyAttr.getByteStringValue().size() != 0)
+				{
+					// Byte strings of a private object are stored encrypted
+					if (!token->decrypt(keyAttr.getByteStringValue(), v1))
+					{
+						return CKR_GENERAL_ERROR;
+					}
+				}
+				else if (!keyAttr.peekValue(v1))
+				{
+					return CKR_KEY_NOT_WRAPPABLE;
+				}
+				if (!it->second.peekValue(v2) || (v1 != v2))
 				{
 					return CKR_KEY_NOT_WRAPPABLE;
 				}
